@@ -27,17 +27,31 @@ def main():
         worlds = [0, 1] if Meta.modal else [None]
         out = []
         marks = [(False, True), (False, False), (True, True), (True, False)] if has_des else [(False, None), (True, None)]
+        variants = [('sdw', 1)]
         for sname, S in subjects.items():
+          for build, copies in ([('sdw', 1), ('mapping', 1), ('sdw', 7)] if sname in ('atom', 'pred') else [('sdw', 1)]):
             for w in worlds:
                 for k in range(len(marks) + 1):
                     for sub in itertools.combinations(marks, k):
+                        if copies > 1 and k == 0:
+                            continue
                         rec = dict(logic=Meta.name, subject=sname, world=w, has_des=has_des,
-                                   lits=[[neg, d] for neg, d in sub])
+                                   lits=[[neg, d] for neg, d in sub], build=build, copies=copies)
                         try:
                             tab = Tableau(logic)
                             b = tab.branch()
                             for neg, d in sub:
-                                b.append(sdwnode(~S if neg else S, d, w))
+                                for _ in range(copies):
+                                    sent = ~S if neg else S
+                                    if build == 'mapping':
+                                        mp = {'sentence': sent}
+                                        if d is not None:
+                                            mp['designated'] = d
+                                        if w is not None:
+                                            mp['world'] = w
+                                        b.append(mp)
+                                    else:
+                                        b.append(sdwnode(sent, d, w))
                             tab.build()
                             rec['branches'] = len(tab)
                             rec['closed'] = bool(b.closed)
